@@ -9,6 +9,7 @@ import (
 	"os/exec"
 	"path/filepath"
 	"runtime"
+	"runtime/debug"
 	"sort"
 	"strings"
 	"sync"
@@ -482,6 +483,24 @@ func popcount(x uint) int {
 
 // ---- driver: cases are spread over single-threaded worker processes ----
 
+// quietGC makes a worker's schedule reproducible: with GOMAXPROCS=1 and
+// asynchronous preemption off, the only thing that can take the processor away
+// from a goroutine between two blocking operations is the garbage collector
+// (stack scans preempt at the next function prologue). Collection is therefore
+// switched off while a case runs and done explicitly between cases; a memory
+// limit keeps a safety net.
+func quietGC() { debug.SetGCPercent(-1); debug.SetMemoryLimit(6 << 30) }
+
+var casesSinceGC int
+
+func betweenCases() {
+	casesSinceGC++
+	if casesSinceGC >= 40 {
+		casesSinceGC = 0
+		runtime.GC()
+	}
+}
+
 type shardOut struct {
 	Results []result
 	Capped  bool
@@ -494,6 +513,7 @@ func runShard(t *testing.T, cs []tcase, idx, of int, deadline time.Time) shardOu
 			out.Capped = true
 			break
 		}
+		betweenCases()
 		r := runCase(t, cs[k])
 		if len(r.Viols) == 0 && r.Panic == "" {
 			r.Log = nil // keep shard files small; logs only for failing cases and the sample
@@ -518,6 +538,7 @@ func TestC28(t *testing.T) {
 		var dl int64
 		fmt.Sscanf(os.Getenv("C28_SHARD"), "%d/%d/%d", &idx, &of, &dl)
 		runtime.GOMAXPROCS(1)
+		quietGC()
 		out := runShard(t, cs, idx, of, time.Unix(dl, 0))
 		b, _ := json.Marshal(out)
 		if err := os.WriteFile(sh, b, 0o644); err != nil {
@@ -535,20 +556,22 @@ func TestC28(t *testing.T) {
 		// child process for the re-establishment cases (a crash of the router
 		// kills the process): results are appended one JSON line per case, the
 		// index of the running case is kept in <out>.cur
-		var from int
+		var from, stride int
 		var dl int64
-		fmt.Sscanf(os.Getenv("C28_REEST_FROM"), "%d/%d", &from, &dl)
+		fmt.Sscanf(os.Getenv("C28_REEST_FROM"), "%d/%d/%d", &from, &stride, &dl)
 		runtime.GOMAXPROCS(1)
+		quietGC()
 		f, err := os.OpenFile(outf, os.O_APPEND|os.O_CREATE|os.O_WRONLY, 0o644)
 		if err != nil {
 			evid.Fatal("reest out: %v", err)
 		}
-		for k := from; k < len(reCases); k++ {
+		for k := from; k < len(reCases); k += stride {
 			if time.Now().After(time.Unix(dl, 0)) {
 				os.WriteFile(outf+".capped", nil, 0o644)
 				break
 			}
 			os.WriteFile(outf+".cur", []byte(fmt.Sprint(k)), 0o644)
+			betweenCases()
 			r := runCase(t, reCases[k])
 			if len(r.Viols) == 0 && r.Panic == "" {
 				r.Log = nil
@@ -605,29 +628,40 @@ func TestC28(t *testing.T) {
 	if firstErr != "" {
 		evid.Fatal("%s", firstErr)
 	}
-	// re-establishment cases in a restartable child process
+	// re-establishment cases in restartable child processes (worker w runs the
+	// cases w, w+workers, ...; after a crash it is restarted behind the crashing case)
 	var reOut shardOut
 	type crash struct {
 		c    tcase
 		text string
 	}
 	var crashes []crash
-	{
-		outf := filepath.Join(dir, "reest.jsonl")
-		from, restarts := 0, 0
+	reWorker := func(w int) {
+		defer wg.Done()
+		outf := filepath.Join(dir, fmt.Sprintf("reest%d.jsonl", w))
+		from, restarts := w, 0
+		capped := false
 		for from < len(reCases) {
 			os.Remove(outf + ".cur")
 			cmd := exec.Command(os.Args[0], "-test.run", "^TestC28$", "-test.count", "1", "-test.timeout", "60m")
-			cmd.Env = append(os.Environ(), "C28_REEST_OUT="+outf, fmt.Sprintf("C28_REEST_FROM=%d/%d", from, run.Deadline().Unix()), "GOMAXPROCS=1")
+			cmd.Env = append(os.Environ(), "C28_REEST_OUT="+outf, fmt.Sprintf("C28_REEST_FROM=%d/%d/%d", from, workers, run.Deadline().Unix()), "GOMAXPROCS=1")
 			ob, _ := cmd.CombinedOutput()
 			if _, err := os.Stat(outf + ".done"); err == nil {
 				break
 			}
-			cur, err := os.ReadFile(outf + ".cur")
-			var idx int
-			if err != nil {
-				evid.Fatal("re-establishment child died before its first case:\n%s", ob)
+			fail := func(f string, a ...any) {
+				emu.Lock()
+				if firstErr == "" {
+					firstErr = fmt.Sprintf(f, a...)
+				}
+				emu.Unlock()
 			}
+			cur, err := os.ReadFile(outf + ".cur")
+			if err != nil {
+				fail("re-establishment child %d died before its first case:\n%s", w, ob)
+				return
+			}
+			var idx int
 			fmt.Sscan(string(cur), &idx)
 			txt := string(ob)
 			if k := strings.Index(txt, "panic:"); k >= 0 {
@@ -643,39 +677,59 @@ func TestC28(t *testing.T) {
 				}
 			}
 			if len(keep) == 0 {
-				evid.Fatal("re-establishment child exited without a panic trace at case %d:\n%s", idx, ob)
+				fail("re-establishment child %d exited without a panic trace at case %d:\n%s", w, idx, ob)
+				return
 			}
+			emu.Lock()
 			crashes = append(crashes, crash{reCases[idx], strings.Join(keep, " | ")})
-			from = idx + 1
+			emu.Unlock()
+			from = idx + workers
 			restarts++
-			if restarts >= 24 {
-				reOut.Capped = true
+			if restarts >= 3 {
+				capped = true
 				break
 			}
 		}
 		if _, err := os.Stat(outf + ".capped"); err == nil {
-			reOut.Capped = true
+			capped = true
 		}
 		b, _ := os.ReadFile(outf)
+		emu.Lock()
+		defer emu.Unlock()
+		if capped {
+			reOut.Capped = true
+		}
 		for _, ln := range strings.Split(string(b), "\n") {
 			if strings.TrimSpace(ln) == "" {
 				continue
 			}
 			var r result
 			if json.Unmarshal([]byte(ln), &r) != nil {
-				evid.Fatal("bad re-establishment result line")
+				if firstErr == "" {
+					firstErr = "bad re-establishment result line"
+				}
+				return
 			}
 			reOut.Results = append(reOut.Results, r)
 		}
-		for _, cr := range crashes {
-			key := "crash/other"
-			if strings.Contains(cr.text, "writePacket") {
-				key = "crash/publish-to-peer-whose-stream-was-just-replaced"
-			}
-			reOut.Results = append(reOut.Results, result{Case: cr.c, Outcome: "router crashed", Viols: []viol{{key, "the router process crashed: " + cr.text + " [" + cr.c.String() + "]"}}})
-		}
-		outs = append(outs, reOut)
 	}
+	for w := 0; w < workers; w++ {
+		wg.Add(1)
+		go reWorker(w)
+	}
+	wg.Wait()
+	if firstErr != "" {
+		evid.Fatal("%s", firstErr)
+	}
+	sort.Slice(crashes, func(i, j int) bool { return crashes[i].c.String() < crashes[j].c.String() })
+	for _, cr := range crashes {
+		key := "crash/other"
+		if strings.Contains(cr.text, "writePacket") {
+			key = "crash/publish-to-peer-whose-stream-was-just-replaced"
+		}
+		reOut.Results = append(reOut.Results, result{Case: cr.c, Outcome: "router crashed", Viols: []viol{{key, "the router process crashed: " + cr.text + " [" + cr.c.String() + "]"}}})
+	}
+	outs = append(outs, reOut)
 	// merge
 	type best struct {
 		v viol
@@ -774,7 +828,7 @@ func TestC28(t *testing.T) {
 	run.Cov["bound"] = fmt.Sprintf("all connected labelled graphs on 2..%d nodes, all subscriber subsets, all publishers, 1-2 messages, 2 establishment orders; stream re-establishment on graphs of 2..%d nodes", maxN, reMaxN)
 	run.Assumptions = append(run.Assumptions,
 		"'reachable' is read as reachable from the publisher along peers that are themselves subscribed (floodsub relays only inside the channel's mesh: non-subscribed nodes drop and are not sent the channel's messages); subscribers of a connected mesh that are only reachable through non-subscribed nodes are counted in cases_with_subscriber_not_reachable_through_subscribed_peers and must NOT be delivered to under this model",
-		"each case runs single-threaded (GOMAXPROCS=1) to quiescence in virtual time: event orders inside one settling are the Go scheduler's; the Get-then-Set de-duplication race between two read pumps is outside this check (covered by the controlled-scheduler part of C28)",
+		"each case runs single-threaded (GOMAXPROCS=1, asynchronous preemption off, garbage collection only between cases) to quiescence in virtual time: goroutines switch only at blocking operations, event orders inside one settling are the Go scheduler's; interleavings that need a preemption between two non-blocking steps - in particular the Get-then-Set de-duplication race between two read pumps - are outside this check (covered by the controlled-scheduler part of C28)",
 		"wire oracle uses the order of writes on the in-memory streams: a write of m from i to j is 'back to the previous hop' only if j is the only peer that had written m to i before",
 		"go-cache's janitor goroutine is stopped through an export shim at teardown; expiry (120 s) is not reached (virtual time per case about 2 s)")
 	run.Finish(t)
